@@ -583,4 +583,26 @@ theorem sem_addSumTwoNumbersWithShift {v : Label → Bool} {a b out : List Label
     simp only [revIf, Bool.false_eq_true, if_false]
     rw [Nat.mul_add]; omega
 
+/-- running a program on a host: every valuation of the host extends to one of the result that
+agrees on the host and satisfies the program's gate equations -/
+theorem run_total {α} {p : Prog α} {st st' : GSt} {a : α} (h : p.run st = .ok (a, st')) (hw : WFS st.c)
+    {b v : Label → Bool} (hv : IsValB st.c b v) :
+    ∃ v', IsValB st'.c b v' ∧ (∀ l ∈ st.c.labels, v' l = v l) ∧ Sem p v' a := by
+  obtain ⟨v', hv', hag⟩ := (run_frame p h hw).ext b v hv
+  exact ⟨v', hv', hag, run_sound p h b v' hv'⟩
+
+theorem cnt_congr {v v' : Label → Bool} {ls : List Label} (h : ∀ l ∈ ls, v' l = v l) : cnt v' ls = cnt v ls := by
+  unfold cnt; congr 1; apply List.map_congr_left; intro l hl; simp [bv, h l hl]
+
+theorem valLE_congr {v v' : Label → Bool} {ls : List Label} (h : ∀ l ∈ ls, v' l = v l) : valLE v' ls = valLE v ls := by
+  induction ls with
+  | nil => rfl
+  | cons x r ih =>
+    simp only [valLE, bv, h x (by simp)]
+    rw [ih (fun l hl => h l (by simp [hl]))]
+
+theorem mem_revIf {l : List Label} {be : Bool} {x : Label} : x ∈ revIf l be ↔ x ∈ l := by
+  cases be <;> simp [revIf]
+
+
 end Cirbo
